@@ -38,6 +38,36 @@ static bool guards_ok(const std::vector<unsigned char>& b)
   return true;
 }
 
+/* bulk pattern: element j of a buffer with seed s = low bytes of (s * 0x9E3779B97F4A7C15 + j * 0xBF58476D1CE4E5B9 + 1) */
+static std::vector<unsigned char> pattern(unsigned long long seed, size_t count, int tsize)
+{
+  std::vector<unsigned char> b(count * tsize);
+  for (size_t j = 0; j < count; j++) {
+    unsigned long long v = seed * 0x9E3779B97F4A7C15ULL + j * 0xBF58476D1CE4E5B9ULL + 1;
+    memcpy(b.data() + j * tsize, &v, tsize);
+  }
+  return b;
+}
+
+static uint32_t crc32_of(const unsigned char* p, size_t n)
+{
+  static uint32_t table[256];
+  static bool init = false;
+  if (not init) {
+    for (uint32_t i = 0; i < 256; i++) {
+      uint32_t c = i;
+      for (int k = 0; k < 8; k++)
+        c = (c & 1) ? 0xEDB88320u ^ (c >> 1) : c >> 1;
+      table[i] = c;
+    }
+    init = true;
+  }
+  uint32_t c = 0xFFFFFFFFu;
+  for (size_t i = 0; i < n; i++)
+    c = table[(c ^ p[i]) & 0xFF] ^ (c >> 8);
+  return c ^ 0xFFFFFFFFu;
+}
+
 /* base addresses of the windows created with MPI_Win_allocate: (rank, window name) -> (pointer, bytes) */
 static std::map<std::pair<int, std::string>, std::pair<unsigned char*, size_t>> allocated;
 
@@ -48,6 +78,11 @@ MPI_OPERATION(win_create)
   std::string name = a.value("win", std::string("w"));
   auto content     = from_hex(a.at("hex").get<std::string>());
   int unit         = a.value("unit", 1);
+  if (a.contains("bulk")) { // {"bulk": {"seed": s, "count": n, "tsize": bytes}}: a patterned area after the hex part
+    auto extra = pattern(a.at("bulk").at("seed").get<unsigned long long>(), a.at("bulk").at("count").get<size_t>(),
+                         a.at("bulk").at("tsize").get<int>());
+    content.insert(content.end(), extra.begin(), extra.end());
+  }
   MPI_Win win      = MPI_WIN_NULL;
   if (a.value("alloc", false)) {
     void* base = nullptr;
@@ -73,20 +108,28 @@ MPI_OPERATION(win_free)
   o["null"]  = w == MPI_WIN_NULL;
 }
 
-static void read_window(Rank& R, const std::string& name, json& o)
+static void read_window(Rank& R, const std::string& name, json& o, size_t head)
 {
   auto it = allocated.find({R.rank, name});
+  const unsigned char* p;
+  size_t n;
   if (it != allocated.end()) {
-    o["hex"]    = to_hex(it->second.first, it->second.second);
+    p           = it->second.first;
+    n           = it->second.second;
     o["guards"] = true;
   } else {
     auto& b     = Rank::find(R.bufs, "wb:" + name, "window buffer");
-    o["hex"]    = to_hex(b.data() + GUARD, b.size() - 2 * GUARD);
+    p           = b.data() + GUARD;
+    n           = b.size() - 2 * GUARD;
     o["guards"] = guards_ok(b);
   }
+  head     = std::min(head, n);
+  o["hex"] = to_hex(p, head);
+  if (head < n)
+    o["crc"] = crc32_of(p + head, n - head);
 }
 
-/* {"op":"win_read","win":name,"lock":bool?} -> "hex","guards"; lock: inside MPI_Win_lock(EXCLUSIVE, self) / MPI_Win_unlock(self) */
+/* {"op":"win_read","win":name,"lock":bool?,"head":bytes?} -> "hex" (of the first `head` bytes),"crc" (CRC-32 of the rest),"guards"; lock: inside MPI_Win_lock(EXCLUSIVE, self) / MPI_Win_unlock(self) */
 MPI_OPERATION(win_read)
 {
   std::string name = a.value("win", std::string("w"));
@@ -101,7 +144,7 @@ MPI_OPERATION(win_read)
     MPI_Group_free(&g);
     rc = MPI_Win_lock(MPI_LOCK_EXCLUSIVE, me, 0, w);
   }
-  read_window(R, name, o);
+  read_window(R, name, o, a.value("head", static_cast<size_t>(1) << 30));
   if (lock) {
     int rc2 = MPI_Win_unlock(me, w);
     rc      = rc != MPI_SUCCESS ? rc : rc2;
@@ -114,6 +157,7 @@ MPI_OPERATION(win_read)
  *        {"k":"unlock_all"} | {"k":"flush","rank":t} | {"k":"flush_all"} | {"k":"flush_local","rank":t} |
  *        {"k":"flush_local_all"} | {"k":"barrier"} |
  *        {"k":"put","id":n,"data":hex,"t":target,"disp":d}                       count = bytes(data)/size(type)
+ *        {"k":"put","id":n,"pat":seed,"count":c,"t":target,"disp":d}             a big patterned origin buffer (see pattern())
  *        {"k":"get","id":n,"count":c,"t":target,"disp":d}                        result in buffer r<id>
  *        {"k":"acc","id":n,"data":hex,"t":..,"disp":..,"mop":op}
  *        {"k":"getacc","id":n,"data":hex,"count":c,"t":..,"disp":..,"mop":op}  (data may be empty with NO_OP)
@@ -167,7 +211,8 @@ MPI_OPERATION(rma)
     else if (k == "barrier")
       rc = MPI_Barrier(R.comm(a));
     else if (k == "put" || k == "acc") {
-      auto data        = from_hex(s.at("data").get<std::string>());
+      auto data        = s.contains("pat") ? pattern(s.at("pat").get<unsigned long long>(), s.at("count").get<size_t>(), tsize)
+                                           : from_hex(s.at("data").get<std::string>());
       int count        = static_cast<int>(data.size() / tsize);
       unsigned char* p = new_buf(R, "o" + id(), data);
       MPI_Request rq   = MPI_REQUEST_NULL;
@@ -250,10 +295,12 @@ MPI_OPERATION(rma_results)
       if (it == R.bufs.end())
         continue;
       ok = ok && guards_ok(it->second);
+      size_t n = it->second.size() - 2 * GUARD;
       if (pre[0] == 'r')
-        entry[0] = to_hex(it->second.data() + GUARD, it->second.size() - 2 * GUARD);
-      if (pre[0] == 'o')
-        entry[2] = to_hex(it->second.data() + GUARD, it->second.size() - 2 * GUARD);
+        entry[0] = n <= 512 ? json(to_hex(it->second.data() + GUARD, n))
+                            : json("crc:" + std::to_string(crc32_of(it->second.data() + GUARD, n)) + ":" + std::to_string(n));
+      if (pre[0] == 'o' && n <= 512)
+        entry[2] = to_hex(it->second.data() + GUARD, n);
       R.bufs.erase(it);
     }
     entry[1] = ok;
